@@ -103,9 +103,15 @@ def main(prop):
     if tot.get('runs') != gen['runs']:
         die_tool('run count mismatch: harness %s, TLC %s' % (gen['runs'], tot.get('runs')))
     lcov = {}
+    if prop in ('C06', 'C07', 'C12', 'C13', 'C19'):
+        import protocol_stage
+        pcov, ps, pt = protocol_stage.run(prop, wd, thorough)
+        lcov.update(pcov)
+        states += ps; trans += pt
     if prop == 'C20':
         import lifecycle_stage
-        lv, lcov, ls, lt, ln = lifecycle_stage.run(prop, wd, thorough)
+        lv, lcov2, ls, lt, ln = lifecycle_stage.run(prop, wd, thorough)
+        lcov.update(lcov2)
         violations += lv
         states += ls; trans += lt
         tot['runs'] = tot.get('runs', 0) + ln
